@@ -13,6 +13,7 @@ TIERS = {
     "C03": T(1500, 25000),
     "C04": T(2000, 30000),
     "C05": T(700, 12000),
+    "C06": T(1500, 20000),
     "C09": T(900, 15000),
     "C12": T(2500, 40000),
     "C13": T(1200, 12000),
@@ -44,6 +45,12 @@ ASSUMPTIONS = {
     "C04": ["the harness flushes before injecting a stall notice: the property is about admission, bytes already buffered cannot be recalled",
             "budget-related obligations use the C03 model"],
     "C05": ["preemption only at lock operations / sleeps / thread create-join (scheduler-owned), with an explicit preemption list or a seeded random policy"],
+    "C06": ["the message / error queue lists are parsed from /repo/README.md (section 'Message handling'); 'only in case of an error' = error variant",
+            "error variants generated: ACCESSORY_STATE/NOTIFY with execution state 0x80, BOOST_STAT short circuit / overheated, CS_DRIVE_EVENT event 1; "
+            "BOOST_STAT codes without a documented classification and CS_DRIVE_EVENT reports whose address low byte and event code disagree are not generated",
+            "MSG_VENDOR: consumed when its key is the CV of a configured reverser of the sending board, otherwise a message-queue message",
+            "payloads are well-formed (harness/traffic.hpp); malformed messages are C12's domain",
+            "the concurrent-reader phase stays below the 128 bound (an overflow racing a pop has no single expected result)"],
     "C12": ["the stream is delivered through the read callback with generated poll gaps; only streams up to ~40 items / 700-byte oversized packets",
             "liveness = at least one of two well-formed probe packets sent after the stream is delivered (a packet directly behind line noise may be merged into the corrupted fragment)",
             "sanitizer-visible memory errors only (ASan + UBSan, G_SLICE=always-malloc)"],
